@@ -189,6 +189,9 @@ class Fn:
         return "%s:%d" % (sp["file"], sp["lo"])
 
     def loc(self, bb, si=None):
+        f = getattr(bb, "fn", None)
+        if f is not None and f is not self:
+            return f.loc(int(bb), si)
         return "%s bb%d%s (%s)" % (self.name, bb, "" if si is None else "[%d]" % si, self.span_of(bb, si))
 
     def term(self, bb):
